@@ -256,6 +256,9 @@ func (r *Run) Violation(sig map[string]string, what string, witness any) {
 	if w := sig["why"]; w != "" {
 		hk += "/" + w
 	}
+	if w := sig["where"]; w != "" {
+		hk += "@" + w
+	}
 	if r.violKinds == nil {
 		r.violKinds = map[string]int64{}
 	}
